@@ -11,7 +11,9 @@
 namespace {
 using namespace sim;
 
-enum LKind { L_READ = 1, L_READ_MID = 2, L_WRITE = 3, L_WRITE_EXPLICIT = 4, L_REHYDRATE = 5, L_OBSOLETE = 6 };
+enum LKind { L_READ = 1, L_READ_MID = 2, L_WRITE = 3, L_WRITE_EXPLICIT = 4, L_REHYDRATE = 5, L_OBSOLETE = 6, L_READ_MOVED = 7 };
+// L_READ_MOVED: the section is move-assigned into a default-constructed read_critical_section (as the tree's descent loops do)
+// and all reads and the validation go through the destination object
 
 struct Shared {
   unodb::optimistic_lock lock;
@@ -58,7 +60,8 @@ struct LockEngine final : Engine {
       for (int i = 0; i < n; i++) {
         Op o;
         const auto x = r.below(100);
-        if (x < 30) o.kind = L_READ;
+        if (x < 22) o.kind = L_READ;
+        else if (x < 30) o.kind = L_READ_MOVED;
         else if (x < 45) o.kind = L_READ_MID;
         else if (x < 72) o.kind = L_WRITE;
         else if (x < 80) o.kind = L_WRITE_EXPLICIT;
@@ -75,6 +78,7 @@ struct LockEngine final : Engine {
   std::string describe(const Op& o) const override {
     switch (o.kind) {
       case L_READ: return "read-section";
+      case L_READ_MOVED: return "read-section-move-assigned-to-another-object";
       case L_READ_MID: return "read-section-with-interim-check";
       case L_WRITE: return "upgrade+write(" + std::to_string(o.a) + ")+guard-dtor-unlock";
       case L_WRITE_EXPLICIT: return "upgrade+write(" + std::to_string(o.a) + ")+unlock()";
@@ -116,6 +120,22 @@ struct LockEngine final : Engine {
           if (o.kind == L_READ_MID) {
             if (!validate(false, rcs, false, a, 0, 0)) break;
           }
+          const uint64_t b = sh->b.load();
+          const uint64_t c2 = sh->c.load();
+          validate(true, rcs, true, a, b, c2);
+          break;
+        }
+        case L_READ_MOVED: {
+          ev.open1 = stamp();
+          auto first = sh->lock.try_read_lock();
+          ev.open2 = stamp();
+          ev.opened = !first.must_restart();
+          if (!ev.opened) break;
+          last_tag = first.get(); have_tag = true; last_tag_open2 = ev.open2;
+          const uint64_t a = sh->a.load();
+          optimistic_lock::read_critical_section rcs;
+          rcs = std::move(first);
+          if (rcs.must_restart()) die("lock-move-lost-section", "a read section that was open became invalid by move assignment");
           const uint64_t b = sh->b.load();
           const uint64_t c2 = sh->c.load();
           validate(true, rcs, true, a, b, c2);
@@ -196,6 +216,11 @@ struct LockEngine final : Engine {
     }
     join_all();
     concurrent_end();
+#ifndef NDEBUG
+    // every section was closed by check/try_read_unlock/upgrade or by its destructor: the debug-only count of open read
+    // sections must be back to zero (the tree asserts exactly this when a node is deallocated)
+    sh->lock.check_on_dealloc();
+#endif
     check(evs, res);
     run_end(res);
     return res;
